@@ -364,3 +364,33 @@ def eval_local_value(fn: ast.FunctionDef, expr: ast.expr, args: dict, data_attrs
         return fold_expr(expr, env, data_attrs=data_attrs)
     except AnalysisError as e:
         raise PureEvalError(str(e))
+
+
+@functools.lru_cache(None)
+def string_prefix_set() -> frozenset:
+    """The string prefixes the scanner accepts, read off the folded `StringStart` pattern (the thing that runs), not off whatever
+    helper builds it: every word of up to three ASCII letters that the pattern takes as the whole prefix of a quoted literal."""
+    import itertools as _it
+    import string as _string
+    F = fold_tokenize()
+    pat = re.compile(F.need("StringStart"))
+    out = set()
+    letters = _string.ascii_letters
+    for n in range(0, 4):
+        for tup in _it.product(letters, repeat=n):
+            c = "".join(tup)
+            if n == 3 and not set(c.lower()) <= set("brufp"):
+                continue     # three-letter prefixes outside the known letters are sampled through the two-letter ones
+            for q in ("'", '"'):
+                m = pat.match(c + q + "x")
+                if m and m.end() >= len(c) + 1 and m.start() == 0:
+                    try:
+                        pre = m.group("StringPrefix")
+                    except (IndexError, error_cls):
+                        pre = c
+                    if (pre or "") == c:
+                        out.add(c)
+    return frozenset(out)
+
+
+error_cls = re.error
